@@ -1339,12 +1339,14 @@ class Session:
                 ediv=self.peer_ediv,
                 rand=self.peer_rand,
             )
-            if self.is_initiator:
-                keys.ltk_central = peer_ltk_key
-                keys.ltk_peripheral = our_ltk_key
-            else:
-                keys.ltk_central = our_ltk_key
-                keys.ltk_peripheral = peer_ltk_key
+            # Whoever initiated this pairing, on a later connection the Central
+            # encrypts with the LTK the device that is then the Peripheral distributed
+            # (Vol 3, Part H - 2.4.4.2): `ltk_central` is the key we use as a Central
+            # (received from the peer), `ltk_peripheral` the key we answer with as a
+            # Peripheral (the one we distributed), which is how Device.encrypt and
+            # Device.get_long_term_key look them up.
+            keys.ltk_central = peer_ltk_key
+            keys.ltk_peripheral = our_ltk_key
         if self.peer_identity_resolving_key is not None:
             keys.irk = PairingKeys.Key(
                 value=self.peer_identity_resolving_key, authenticated=authenticated
